@@ -1,9 +1,11 @@
 #!/bin/sh
-# run tools/seedtest.py for every delivered variant that has no meta.json yet (4 in parallel)
+# usage: tools/seedall.sh [base=/tmp/seed] [round-tag=""]  -- run tools/seedtest.py for every delivered variant
+# <base>/Cxx/out/<v>/patch.diff that has no seeded/Cxx-<tag><v>/meta.json yet (PAR in parallel, default 3)
+base=${1:-/tmp/seed}; tag=${2:-}
 cd /verif
-ls -d /tmp/seed/C*/out/*/ 2>/dev/null | while read d; do
+ls -d $base/C*/out/*/ 2>/dev/null | while read d; do
   [ -f "$d/patch.diff" ] || continue
-  pid=$(echo "$d" | sed 's#/tmp/seed/\(C[0-9]*\)/out/.*#\1#'); v=$(basename "$d")
-  [ -f "seeded/$pid-$v/meta.json" ] && [ -z "$FORCE" ] && continue
-  echo "$pid $d"
-done | xargs -P 4 -L 1 sh -c 'python3 tools/seedtest.py $0 $1 2>&1 | tail -1'
+  pid=$(echo "$d" | sed "s#$base/\(C[0-9]*\)/out/.*#\1#"); v=$(basename "$d")
+  [ -f "seeded/$pid-$tag$v/meta.json" ] && [ -z "$FORCE" ] && continue
+  echo "$pid $d $pid-$tag$v"
+done | xargs -P ${PAR:-3} -L 1 sh -c 'python3 tools/seedtest.py $0 $1 $2 2>&1 | tail -1'
